@@ -263,3 +263,50 @@ Theorem C11_attach_only_rule_refuted :
     do_request U X P true m base bh hj r = (m, RFail, []).
 Proof. exact attach_only_rule_refuted. Qed.
 Print Assumptions C11_attach_only_rule_refuted.
+
+(** 6. "Known" does not mean "validated": the instant path runs ValidateBlock on every block of
+    the answer whatever the store already holds for its id (no hypothesis on [m]): an accepted
+    request passed the checkpoint checks and [vblocks] in full.  With [instant_base] (for a valid
+    v2 base the derived state is the true state after the base) every block handed to
+    AddValidatedV2Blocks is therefore fully valid independently of [known m]. *)
+Theorem C11_instant_validates_known_blocks :
+  ∀ U X P fixcp m base bh hj cp st j bs m' acts,
+    do_request U X P fixcp m base bh hj (CInstant cp st j bs) = (m', RNext, acts) →
+    reqh P ≤ bh ∧ checkpoint_ok U X fixcp base cp st j = true ∧
+    vblocks U (derive U X st cp) j bs = true ∧ acts = [Submit true bs Ok].
+Proof. exact instant_validates_known_blocks. Qed.
+Print Assumptions C11_instant_validates_known_blocks.
+
+(** The two-peer history (universe, labels, node and messages: module [Preseed] of
+    Net/SyncProofs.v): peer 7 relays the outline of the header-valid, body-invalid block 2 on our
+    tip 1 (AddBlocks stores it with a header-derived state, applyTip rejects it: Err, ban); peer
+    8 then serves 2-3-4-5 through the checkpoint path with an honest checkpoint.  The tip does
+    not move, both peers are banned, block 2 stays known (state, no supplement), and nothing
+    reaches AddValidatedV2Blocks. *)
+Theorem C11_preseeded_invalid_block_example :
+  WF Preseed.U ∧ WFX Preseed.U Preseed.X Preseed.P ∧ GRoot Preseed.U ∧
+  NInv Preseed.U Preseed.n0 ∧ Forall (uniform Preseed.U Preseed.P) Preseed.msgs ∧
+  let r := run Preseed.U Preseed.X Preseed.P true Preseed.subnets Preseed.n0 Preseed.msgs in
+  r.2 = [Synced 7; Submit false [2] Err; Ban 7; Ban 8] ∧
+  best (n_mgr r.1) = [1; 0] ∧
+  Ban 7 ∈ r.2 ∧ Ban 8 ∈ r.2 ∧
+  has_state (n_mgr r.1) 2 = true ∧ has_supp (n_mgr r.1) 2 = false ∧
+  (∀ l o, Submit true l o ∉ r.2).
+Proof. exact preseeded_invalid_block_example. Qed.
+Print Assumptions C11_preseeded_invalid_block_example.
+
+(** 6'. With ValidateBlock skipped for ids that already have a state ([run_skip] /
+    [vblocks_skip], Net/SyncProofs.v: [step] with that one change in the sync round) the same
+    history, peer 8 serving the pre-seeded block 2, hands it to AddValidatedV2Blocks outside
+    the precondition and it is adopted; the real rule keeps the tip. *)
+Theorem C11_skip_known_rule_refuted :
+  ∃ U X P subnets n0 msgs,
+    WF U ∧ WFX U X P ∧ GRoot U ∧ 0 < bpr P ∧ 0 < reqh P ∧ NInv U n0 ∧
+    Forall (uniform U P) msgs ∧
+    best (n_mgr (run U X P true subnets n0 msgs).1) = [1; 0] ∧
+    let r := run_skip U X P subnets n0 msgs in
+    best (n_mgr r.1) = [2; 1; 0] ∧
+    (∃ l, Submit true l Ok ∈ r.2 ∧ ¬ validated_pre U l) ∧
+    (∃ b B, b ∈ best (n_mgr r.1) ∧ U !! b = Some B ∧ body_ok B = false).
+Proof. exact skip_known_rule_refuted. Qed.
+Print Assumptions C11_skip_known_rule_refuted.
